@@ -279,7 +279,7 @@ func scanPrivileged() (rows []scanRow, routersOfHeaderSync []string) {
 					rsk, _ := s.reach(rp, decls)
 					always := c.addrVar == "HeaderSyncContractAddress" && m == "SyncGenesisHeader"
 					if len(rsk) > 0 || always {
-						rows = append(rows, scanRow{Contract: c.addrVar, Method: method, Router: filepath.Base(routers[a]) + routerSuffix(rp, decls),
+						rows = append(rows, scanRow{Contract: c.addrVar, Method: method, Router: filepath.Base(routers[a]),
 							Handler: routers[a] + "." + m, Sinks: rsk})
 					}
 				}
@@ -298,8 +298,6 @@ func scanPrivileged() (rows []scanRow, routersOfHeaderSync []string) {
 	sort.Slice(rows, func(i, j int) bool { return rows[i].ID() < rows[j].ID() })
 	return
 }
-
-func routerSuffix(p *pkgInfo, decls []*ast.FuncDecl) string { return "" }
 
 func recvName(d *ast.FuncDecl) string {
 	t := d.Recv.List[0].Type
